@@ -344,6 +344,28 @@ def run_check(
     und = [o for o in chk.obs if o.verdict == UNDECIDED]
     for o in und:
         problems.append(f"undecided obligation {o.key} at {o.module}:{o.line}: {o.why}")
+    # a function the rules are anchored in that has gained a decorator is no longer what runs: the rules read the undecorated body
+    try:
+        from .normalise import ref_table
+
+        ref = ref_table()
+        seen_fn = set()
+        for o in chk.obs:
+            qual = o.function.split(".<")[0]
+            if (o.module, qual) in seen_fn or not o.module.endswith(".py"):
+                continue
+            seen_fn.add((o.module, qual))
+            want = ref.get(o.module, {}).get(qual, {}).get("decorators")
+            mod_ = prog.module(o.module) if o.module in prog.sources else None
+            if want is None or mod_ is None or not mod_.has_func(qual):
+                continue
+            have = sorted(ast.unparse(d) for d in mod_.func(qual).decorator_list)
+            extra = [d for d in have if d not in want]
+            if extra:
+                problems.append(f"{o.module}:{qual} is wrapped by `@{extra[0]}`, which the pinned tree does not have: the rules analyse the undecorated body, "
+                                "what runs is the wrapper's result (a memo or filter in the wrapper can change every answer)")
+    except AnalysisError:
+        pass
 
     if replay:
         want = json.loads(Path(replay).read_text()).get("key")
